@@ -90,7 +90,7 @@ ZSTD_frameLog* ZSTD_seekable_createFrameLog(int checksumFlag)
         return NULL;
     }
 
-    fl->checksumFlag = checksumFlag;
+    fl->checksumFlag = (checksumFlag != 0);   /* one bit in the seek table descriptor */
     fl->seekTablePos = 0;
     fl->seekTableIndex = 0;
     fl->size = 0;
@@ -152,7 +152,7 @@ size_t ZSTD_seekable_initCStream(ZSTD_seekable_CStream* zcs,
     zcs->maxFrameSize = maxFrameSize ?
                         maxFrameSize : ZSTD_SEEKABLE_MAX_FRAME_DECOMPRESSED_SIZE;
 
-    zcs->framelog.checksumFlag = checksumFlag;
+    zcs->framelog.checksumFlag = (checksumFlag != 0);   /* one bit in the seek table descriptor */
     if (zcs->framelog.checksumFlag) {
         XXH64_reset(&zcs->xxhState, 0);
     }
